@@ -50,8 +50,8 @@ ASSUMPTIONS = [
     "a call returns nothing without reading input at most k times in a row); the contract is instantiated for the Copy stage "
     "on a stream that holds the declared bytes; for the real codecs it is an assumption, and its failure is exhibited "
     "(worker_spins, header_loop_spins) and replayed on the implementation",
-    "time and memory of the real interpreter are measured, with thresholds: a call may take 2 s + 20 us per byte of "
-    "input and declared output (quick tier), resident memory may grow by 300 MB",
+    "time and memory of the real interpreter are measured, with thresholds: a call may use 2 s of CPU time (3 s thorough; "
+    "inputs are below 64 kB), with a wall-clock backstop of 8 times that + 5 s; resident memory may grow by 300 MB per call",
 ]
 
 MAGIC = b"7z\xbc\xaf\x27\x1c"
@@ -273,11 +273,14 @@ def mutate_tokens(T, rng):
             return T, "%s: %d -> %d" % (T[i][0], old, T[i][2])
     if r < 0.62:
         ids = [i for i, t in enumerate(T) if t[1] == "id"]
+        if not ids:
+            return T + [["header.end", "id", 0]], "END appended"
         i = rng.choice(ids)
         old = T[i][2]
         if rng.random() < 0.3:
+            lab = T[i][0]
             del T[i]
-            return T, "%s: id %d removed" % (T[i - 1][0] if i else "header", old)
+            return T, "%s: id %d removed" % (lab, old)
         T[i][2] = rng.choice([0, 1, 4, 5, 6, 7, 8, 9, 10, 11, 12, 13, 14, 15, 16, 17, 18, 19, 20, 21, 22, 23, 24, 25, 255])
         return T, "%s: id %d -> %d" % (T[i][0], old, T[i][2])
     if r < 0.70:
@@ -332,7 +335,7 @@ def mutate_tokens(T, rng):
                 return T[:b] + [list(t) for t in sec] + T[b:], "section %s duplicated" % s
             if how == "move":
                 rest = T[:a] + T[b:]
-                k = rng.randrange(1, len(rest) + 1)
+                k = rng.randrange(0, len(rest) + 1)
                 return rest[:k] + sec + rest[k:], "section %s moved to token %d" % (s, k)
             others = [x for x in present if x != s and not x.startswith(s + ".") and not s.startswith(x + ".")]
             if others:
@@ -343,7 +346,7 @@ def mutate_tokens(T, rng):
                 if b2 <= a:
                     return T[:a2] + sec + T[b2:a] + T[a2:b2] + T[b:], "sections %s and %s swapped" % (s, s2)
             return T[:a] + T[b:], "section %s dropped" % s
-    k = rng.randrange(1, len(T))
+    k = rng.randrange(1, max(2, len(T)))
     keep_end = rng.random() < 0.5
     return T[:k] + ([["header.end", "id", 0]] if keep_end else []), "token stream cut at %d%s" % (k, " + END" if keep_end else "")
 
@@ -505,6 +508,7 @@ def child_batch(arg):
         raise _Blowup(json.dumps(state["sites"] or _sites(frame)))
 
     signal.signal(signal.SIGALRM, on_alarm)
+    signal.signal(signal.SIGPROF, on_alarm)
     signal.signal(signal.SIGUSR1, on_usr1)
     stop = threading.Event()
 
@@ -533,7 +537,9 @@ def child_batch(arg):
             state["base"] = _rss_mb()
             state["armed"] = True
             t0 = time.time()
-            signal.setitimer(signal.ITIMER_REAL, budget)
+            # the budget is CPU time of this process (the machine may be busy); wall clock only as a backstop
+            signal.setitimer(signal.ITIMER_PROF, budget)
+            signal.setitimer(signal.ITIMER_REAL, budget * 8 + 5)
             try:
                 try:
                     if op == "open":
@@ -548,6 +554,7 @@ def child_batch(arg):
                     else:
                         val = _do_op(z, op)
                 finally:
+                    signal.setitimer(signal.ITIMER_PROF, 0)
                     signal.setitimer(signal.ITIMER_REAL, 0)
                     state["armed"] = False
                 ops_out.append([op, "ok", val, round(time.time() - t0, 3)])
@@ -1129,3 +1136,399 @@ def check_cost_model(ctx, rep, rng, tier):
                      {"part": "toy_header_loop", "args": [fuel, states, us, isz, bsz, packed, usize]})
             break
     rep.extra["cost_model_correspondence"] = {"cases": n_cases}
+
+
+# ------------------------------------------------------------------ running cases in sandboxed children
+def run_cases(cases, tmpdir, budget, workers=14, batch=24, detect_spin=True, rss_mb=300, mem_mb=1500):
+    """cases: list of {id, a(hex), pw, ops, mode}.  Returns {id: result | {'child': status}}"""
+    results = {}
+    queue = [cases[i:i + batch] for i in range(0, len(cases), batch)]
+
+    def one(chunk):
+        out = {}
+        rest = list(chunk)
+        while rest:
+            tmo = 20 + sum((c.get("budget", budget)) * (len(c["ops"]) + 1) for c in rest) * 0.6
+            r = run_sandboxed("harness.c05:child_batch",
+                              {"cases": rest, "budget": budget, "tmpdir": tmpdir, "rss_mb": rss_mb, "detect_spin": detect_spin},
+                              timeout=tmo, mem_mb=mem_mb)
+            if r["status"] == "ok":
+                for x in r["value"]:
+                    out[x["id"]] = x
+                rest = [c for c in rest if c["id"] not in out]
+                continue
+            # the child itself died, hung or ran out of address space: isolate
+            if len(rest) == 1:
+                out[rest[0]["id"]] = {"id": rest[0]["id"], "child": r["status"], "detail": r, "ops": []}
+                rest = []
+            else:
+                half = len(rest) // 2
+                a, b = rest[:half], rest[half:]
+                ra = one(a)
+                out.update(ra)
+                rest = b
+        return out
+
+    with ThreadPoolExecutor(max_workers=workers) as ex:
+        for res in ex.map(one, queue):
+            results.update(res)
+    return results
+
+
+def child_measure(arg):
+    """open one archive (and run ops) without any instrumentation; report wall time and peak RSS"""
+    import resource
+    data = bytes.fromhex(arg["a"])
+    base = resource.getrusage(resource.RUSAGE_SELF).ru_maxrss // 1024
+    t0, c0 = time.time(), time.process_time()
+    try:
+        z = py7zr.SevenZipFile(io.BytesIO(data), "r")
+        for op in arg.get("ops", []):
+            _do_op(z, op)
+        st = "ok"
+    except MemoryError:
+        st = "MemoryError"
+    except Exception as e:  # noqa
+        st = type(e).__name__
+    return {"status": st, "time": round(time.process_time() - c0, 3), "wall": round(time.time() - t0, 3),
+            "rss_mb": resource.getrusage(resource.RUSAGE_SELF).ru_maxrss // 1024 - base, "bytes": len(data)}
+
+
+def measure_blowups(rep, tier):
+    """time / RSS against the declared count at (nearly) constant or linear input size"""
+    big = tier != "quick"
+    plans = {
+        "numfiles": ([200000, 400000, 800000] if not big else [10 ** 6, 3 * 10 ** 6, 10 ** 7],
+                     lambda n: seal(b"\x01\x05" + num(n) + b"\x00\x00")),
+        "numstreams-without-sizes": ([2 * 10 ** 6, 4 * 10 ** 6, 8 * 10 ** 6] if not big else [10 ** 7, 3 * 10 ** 7, 10 ** 8],
+                                     lambda n: seal(b"\x01\x04\x06\x00" + num(n) + b"\x00\x00\x00")),
+        "substreams-count": ([10 ** 7, 2 * 10 ** 7, 4 * 10 ** 7],
+                             lambda n: seal(b"\x01\x04\x06\x00\x01\x09\x00\x00\x07\x0b\x01\x00\x01\x01\x00\x0c\x00\x00\x08\x0d"
+                                            + num(n) + b"\x00\x00\x00")),
+        "packpositions": ([10000, 20000, 40000] if not big else [20000, 40000, 80000],
+                          lambda n: seal(b"\x01\x04\x06\x00" + num(n) + b"\x09" + b"\x01" * n + b"\x00\x00\x00")),
+        "bindpairs": ([3000, 6000, 12000] if not big else [6000, 12000, 24000],
+                      lambda n: seal(b"\x01\x04\x07\x0b\x01\x00" + num(1) + bytes([0x11]) + b"\x00" + num(n + 1) + num(n + 1)
+                                     + b"".join(num(1) + num(0) for _ in range(n)) + b"\x0c\x00")),
+        "names-at-eof": ([250, 500, 1000] if not big else [1000, 2000, 4000],
+                         lambda n: seal(b"\x01\x05" + num(n) + b"\x11\x01\x00\x00\x00")),
+    }
+    jobs = [(k, n, mk(n)) for k, (ns, mk) in plans.items() for n in ns]
+    with ThreadPoolExecutor(max_workers=6) as ex:
+        outs = list(ex.map(lambda j: run_sandboxed("harness.c05:child_measure", {"a": j[2].hex()}, timeout=240, mem_mb=12000), jobs))
+    table = {}
+    for (k, n, a), o in zip(jobs, outs):
+        v = o.get("value") if o["status"] == "ok" else {"status": o["status"], "time": None, "wall": None, "rss_mb": None}
+        table.setdefault(k, []).append({"declared": n, "archive_bytes": len(a), "cpu_s": v["time"], "wall_s": v["wall"],
+                                        "rss_mb": v["rss_mb"], "status": v["status"]})
+    rep.extra["measurements"] = table
+    verdicts = {}
+    for k, rows in table.items():
+        if any(r["cpu_s"] is None for r in rows):
+            verdicts[k] = "child did not finish: %s" % [r["status"] for r in rows]
+            continue
+        t1, t2, t3 = [max(r["cpu_s"], 1e-3) for r in rows]
+        m1, m3 = rows[0]["rss_mb"], rows[2]["rss_mb"]
+        n1, n3 = rows[0]["declared"], rows[2]["declared"]
+        expo = math.log(t3 / t2, 2) if t2 > 0.05 else None
+        per = (m3 - m1) * 1024 * 1024 / (n3 - n1)
+        verdicts[k] = {"exponent_of_time_in_count": None if expo is None else round(expo, 2), "rss_bytes_per_declared_item": round(per, 1),
+                       "cpu_last_s": t3, "input_bytes_last": rows[2]["archive_bytes"]}
+    rep.extra["measurement_verdicts"] = verdicts
+    return table, verdicts
+
+
+# ------------------------------------------------------------------ model predictions for raw headers
+def model_status(model, raw, lim):
+    r = model.call("parse_header", [lim, list(raw)])
+    if r[0] == 0:
+        return "ok"
+    return "fuel" if r[1] == 7 else "err"
+
+
+def declared_count(model, raw, cap=2 ** 22):
+    """smallest power of two (>= 64) at which the parser model stops giving the resource answer; None above cap"""
+    lim = 64
+    while lim <= cap:
+        if model_status(model, raw, lim) != "fuel":
+            return lim
+        lim *= 4
+    return None
+
+
+# ------------------------------------------------------------------ the check
+def run(ctx):
+    rep, tier = ctx["rep"], ctx["tier"]
+    rng = random.Random(ctx["seed"])
+    model = ctx["model"]
+    quick = tier == "quick"
+    rep.cov["rule"] = ("a case = (archive bytes, password, mode, call sequence); archives: valid ones of every chain + fixtures, byte "
+                       "mutants (truncation, bit flips weighted to the packed area, splices), structure mutants of the header token "
+                       "stream (numbers -> 0,1,2^k-1,2^k,2^32,2^63,2^64-1; ids, bit vectors, byte strings; sections dropped / duplicated "
+                       "/ moved / swapped; cut) re-sealed, wrong / missing passwords; non-trivial = the constructor got past the "
+                       "signature header (the mutant reached the parser or the extraction); distinct by (archive, sequence)")
+    t_start = time.time()
+    events = {}
+
+    def part(f, *a):
+        try:
+            return f(*a)
+        except Exception as e:  # noqa
+            import traceback
+            rep.violation("%s raised %s: %s" % (f.__name__, type(e).__name__, e),
+                          {"kind": "exception", "part": f.__name__, "trace": traceback.format_exc()[-1500:]}, concrete=False,
+                          match_keys={"kind": "harness-exception"})
+
+    part(check_cost_model, ctx, rep, rng, tier)
+    tmpdir = tempfile.mkdtemp(prefix="c05-")
+    try:
+        part(explore, ctx, rep, rng, tier, tmpdir, events)
+        part(measure, ctx, rep, tier)
+    finally:
+        shutil.rmtree(tmpdir, ignore_errors=True)
+    rep.extra["events"] = {"%s/%s" % k: v for k, v in sorted(events.items())}
+    rep.extra["wall_parts_s"] = round(time.time() - t_start, 1)
+
+
+def measure(ctx, rep, tier):
+    table, verdicts = measure_blowups(rep, tier)
+    crit = {
+        "numfiles": ("alloc", lambda v: v["rss_bytes_per_declared_item"] > 50),
+        "numstreams-without-sizes": ("alloc", lambda v: v["rss_bytes_per_declared_item"] > 4),
+        "substreams-count": ("alloc", lambda v: v["rss_bytes_per_declared_item"] > 4),
+        "packpositions": ("quadratic", lambda v: v["exponent_of_time_in_count"] is not None and v["exponent_of_time_in_count"] > 1.5),
+        "bindpairs": ("quadratic", lambda v: v["exponent_of_time_in_count"] is not None and v["exponent_of_time_in_count"] > 1.5),
+        "names-at-eof": ("amplify", lambda v: v["cpu_last_s"] > 1e-4 * v["input_bytes_last"] + 1.0),
+    }
+    for k, v in verdicts.items():
+        kind, test = crit[k]
+        if isinstance(v, str):
+            bad, how = True, v
+        else:
+            bad, how = test(v), json.dumps(v)
+        if bad:
+            rep.violation("measured: %s; %s; rows %s" % (WHAT.get((kind, k), k), how, json.dumps(table[k])),
+                          {"kind": "measure", "what": k, "rows": table[k]}, match_keys={"kind": kind, "via": k})
+
+
+def explore(ctx, rep, rng, tier, tmpdir, events):
+    model = ctx["model"]
+    quick = tier == "quick"
+    budget = 2.0 if quick else 3.0
+    corpus = build_corpus(rng, tier)
+    rep.extra["corpus"] = [b["name"] for b in corpus]
+    cases, meta = [], {}
+
+    def add(name, a, pw, ops, mode="bio", origin="", pred=None, expect=None, raw=None, bud=None):
+        cid = "c%d" % len(cases)
+        c = {"id": cid, "a": a.hex(), "pw": pw, "ops": ops, "mode": mode}
+        if bud:
+            c["budget"] = bud
+        cases.append(c)
+        meta[cid] = {"name": name, "origin": origin, "pred": pred, "expect": expect, "len": len(a), "raw": raw}
+        rep.dist("case_origin", origin)
+        rep.dist("archive_size", "<=64" if len(a) <= 64 else "<=512" if len(a) <= 512 else "<=4096" if len(a) <= 4096 else ">4096")
+        rep.dist("sequence", ",".join(ops)[:60])
+
+    # A. valid archives under every sequence template (in memory and from a file)
+    for b in corpus:
+        seqs = SEQS if not quick else rng.sample(SEQS, 5) + [["extractall", "extractall"]]
+        for s in seqs:
+            add(b["name"], b["a"], b["pw"], list(s), mode=rng.choice(["bio", "bio", "file"]), origin="valid")
+    # D. wrong / missing password
+    for b in corpus:
+        if b["pw"]:
+            for pw in (None, "wrong", "", "secret\0"):
+                add(b["name"] + " pw=%r" % pw, b["a"], pw, random_seq(rng), origin="password")
+    # B. byte-level mutants
+    nb = 260 if quick else 6000
+    for _ in range(nb):
+        b = rng.choice(corpus)
+        a, how = byte_mutant(b, corpus, rng)
+        add(b["name"] + ": " + how, a, b["pw"], random_seq(rng), mode=rng.choice(["bio", "bio", "bio", "file"]), origin="bytes")
+    # C. structure-aware mutants, re-sealed; the parser model predicts
+    nc = 700 if quick else 20000
+    pred_tab = {}
+    withtok = [b for b in corpus if b["tokens"]]
+    for _ in range(nc):
+        b = rng.choice(withtok)
+        T = b["tokens"]
+        hows = []
+        for _k in range(rng.choice([1, 1, 1, 2, 3])):
+            T, how = mutate_tokens(T, rng)
+            hows.append(how)
+        raw = assemble(T)
+        packed = b["packed"]
+        r = rng.random()
+        if r < 0.08:
+            packed = packed[:rng.randrange(0, len(packed) + 1)]
+            hows.append("packed area cut to %d" % len(packed))
+        a = seal(raw, packed)
+        pred = None
+        if model is not None and len(raw) < 20000:
+            pred = model_status(model, raw, 8 * len(raw) + 64)
+        add(b["name"] + ": " + "; ".join(hows), a, b["pw"], random_seq(rng), origin="structure", pred=pred, raw=raw.hex())
+    # signature-header fields (offset, size, header CRC), start CRC re-sealed
+    for _ in range(40 if quick else 600):
+        b = rng.choice(corpus)
+        packed, h = split(b["a"])
+        kw = {}
+        for f in rng.sample(["ofs", "size", "hcrc", "version"], rng.choice([1, 1, 2])):
+            kw[f] = (rng.choice(BOUNDARY + [len(packed) + 1, len(packed) - 1, len(h) + 1, len(h) - 1]) if f != "version"
+                     else bytes([rng.randrange(256), rng.randrange(256)]))
+            if f == "hcrc":
+                kw[f] &= 0xFFFFFFFF
+            if f in ("ofs", "size"):
+                kw[f] = max(0, kw[f]) & (2 ** 64 - 1)
+        add(b["name"] + ": signature header %r" % kw, seal(h, packed, **kw), b["pw"], random_seq(rng),
+            mode=rng.choice(["bio", "file"]), origin="signature")
+    # E. directed: one trigger per kind known on the pinned tree, and controls
+    for name, a, pw, ops, expect in directed_cases(rng):
+        add("directed: " + name, a, pw, ops, origin="directed", expect=expect, bud=budget + 1.0)
+
+    results = run_cases(cases, tmpdir, budget, workers=14, batch=24)
+
+    # ---- evaluate
+    unknown_retry = []
+    first = {}
+    stats = {"ops": 0, "ok": 0, "exc": 0, "events": 0, "benign_memory": 0}
+    for c in cases:
+        m = meta[c["id"]]
+        r = results.get(c["id"])
+        if r is None:
+            continue
+        if r.get("child"):
+            # the whole child died / hung although every call is watched: the interpreter did not survive
+            rep.count((c["a"], tuple(c["ops"])), nontrivial=True)
+            key = ("crash", "child-" + r["child"])
+            events[key] = events.get(key, 0) + 1
+            unknown_retry.append((c, m, key, "the child process running this case ended with status %s" % r["child"]))
+            continue
+        opened = bool(r["ops"]) and r["ops"][0][0] == "open" and (r["ops"][0][1] != "exc" or r["ops"][0][2] != "Bad7zFile")
+        rep.count((c["a"], tuple(c["ops"])), nontrivial=opened)
+        done = []
+        for op, status, detail, secs in r["ops"]:
+            stats["ops"] += 1
+            rep.dist("call_outcome", status if status != "exc" else "exc:" + str(detail))
+            if status in ("ok", "exc"):
+                stats[status] += 1
+                done.append(op)
+                continue
+            if status == "memory" and not r["tainted"]:
+                # one request far beyond the address space limit, refused at once: an ordinary exception unless the
+                # parser model says a declared count of a size that a larger machine would grant
+                raw = m.get("raw")
+                dangerous = False
+                if raw and model is not None and m.get("pred") == "fuel":
+                    dangerous = True
+                if not dangerous:
+                    stats["benign_memory"] += 1
+                    done.append(op)
+                    continue
+            kind, via = classify(op, status, detail, done)
+            stats["events"] += 1
+            events[(kind, via)] = events.get((kind, via), 0) + 1
+            if m["origin"] == "structure":
+                pred_tab["%s -> %s/%s" % (m["pred"], kind, via)] = pred_tab.get("%s -> %s/%s" % (m["pred"], kind, via), 0) + 1
+            what = "%s [%s]; call %s of %s on %s (%d bytes, %s) -> %s after %.2f s; frames: %s" % (
+                WHAT.get((kind, via), "unexplained resource event"), "%s/%s" % (kind, via), op, c["ops"], m["name"], m["len"], c["mode"],
+                status, secs, (detail.get("sites") if isinstance(detail, dict) else detail)[:4] if detail else detail)
+            if kind == "unknown" or kind == "crash":
+                unknown_retry.append((c, m, (kind, via), what))
+            elif (kind, via) not in first:
+                first[(kind, via)] = (c, m, what, status)
+            break
+        if m["origin"] == "structure" and m["pred"] is not None:
+            st0 = r["ops"][0][1] if r["ops"] else "none"
+            pred_tab["%s -> open:%s" % (m["pred"], st0 if st0 in ("ok", "exc") else "event")] = \
+                pred_tab.get("%s -> open:%s" % (m["pred"], st0 if st0 in ("ok", "exc") else "event"), 0) + 1
+        exp = m.get("expect")
+        if m["origin"] == "directed":
+            got = None
+            for op, status, detail, secs in r["ops"]:
+                if status not in ("ok", "exc"):
+                    got = classify(op, status, detail, [o[0] for o in r["ops"][:r["ops"].index([op, status, detail, secs])]])
+                    break
+            rep.sample({"case": m["name"], "bytes": m["len"], "ops": c["ops"], "observed": got, "calls": [o[:2] + o[3:] for o in r["ops"]]},
+                       limit=16)
+            if exp is None and got is not None:
+                unknown_retry.append((c, m, got, "control case %s shows %s" % (m["name"], got)))
+    rep.extra["calls"] = stats
+    rep.extra["parser_model_prediction_vs_observation"] = pred_tab
+
+    # ---- known-shaped events: one replayable report per kind; hangs are confirmed without instrumentation first
+    confirm = []
+    for (kind, via), (c, m, what, status) in first.items():
+        if kind == "hang":
+            confirm.append(((kind, via), c, m, what))
+        else:
+            rep.violation(what, {"kind": "seq", "a": c["a"], "pw": c["pw"], "ops": c["ops"], "mode": c["mode"], "expect": [kind, via]},
+                          match_keys={"kind": kind, "via": via})
+    if confirm:
+        def conf(item):
+            (kind, via), c, m, what = item
+            return run_sandboxed("harness.c05:child_single", {"a": c["a"], "pw": c["pw"], "ops": c["ops"], "mode": c["mode"],
+                                                               "tmpdir": tmpdir}, timeout=5.0 if quick else 15.0, mem_mb=1500)
+        with ThreadPoolExecutor(max_workers=8) as ex:
+            outs = list(ex.map(conf, confirm))
+        for ((kind, via), c, m, what), o in zip(confirm, outs):
+            if o["status"] == "timeout":
+                rep.violation(what + "; confirmed: the unmodified call sequence is still running after %s s in a fresh interpreter"
+                              % (5 if quick else 15),
+                              {"kind": "seq", "a": c["a"], "pw": c["pw"], "ops": c["ops"], "mode": c["mode"], "expect": [kind, via]},
+                              match_keys={"kind": kind, "via": via})
+            else:
+                rep.violation("the stuck-state detector fired (%s) but the unmodified run ended: %s" % (what, json.dumps(o)[:300]),
+                              {"kind": "seq", "a": c["a"], "pw": c["pw"], "ops": c["ops"], "mode": c["mode"]}, concrete=False,
+                              match_keys={"kind": "detector-disagreement", "via": via})
+    # ---- unexplained events: re-run alone with a generous budget before believing them (machine load)
+    seen = set()
+    todo = []
+    for c, m, key, what in unknown_retry:
+        if key in seen or len(todo) >= 12:
+            continue
+        seen.add(key)
+        todo.append((c, m, key, what))
+    if todo:
+        again = run_cases([dict(c, budget=budget * 5) for c, _, _, _ in todo], tmpdir, budget * 5, workers=6, batch=1)
+        for c, m, key, what in todo:
+            r = again.get(c["id"], {})
+            still = r.get("child") or any(o[1] not in ("ok", "exc") for o in r.get("ops", []))
+            if still:
+                rep.violation(what + "; reproduced alone with a budget of %.0f s per call" % (budget * 5),
+                              {"kind": "seq", "a": c["a"], "pw": c["pw"], "ops": c["ops"], "mode": c["mode"], "budget": budget * 5},
+                              match_keys={"kind": key[0], "via": key[1]})
+            else:
+                rep.extra.setdefault("not_reproduced", []).append({"case": m["name"], "event": list(key)})
+
+
+# ------------------------------------------------------------------ replay
+def replay(d):
+    r = d["replay"]
+    if r.get("kind") == "seq":
+        tmp = tempfile.mkdtemp(prefix="c05r-")
+        try:
+            case = {"id": "r", "a": r["a"], "pw": r.get("pw"), "ops": r["ops"], "mode": r.get("mode", "bio")}
+            res = run_cases([case], tmp, r.get("budget", 3.0), workers=1, batch=1)["r"]
+            bad = res.get("child") or [o for o in res.get("ops", []) if o[1] not in ("ok", "exc")]
+            print(json.dumps(res)[:1500])
+            return 1 if bad else 0
+        finally:
+            shutil.rmtree(tmp, ignore_errors=True)
+    if r.get("kind") == "measure":
+        rows = []
+        for row in r["rows"]:
+            rows.append(row)
+        print("re-measure with: tools/verif.py check C05; rows recorded:", json.dumps(rows))
+        import vlib
+        rep = vlib.Report("C05", "quick", 0)
+        rep.known = []
+        table, verdicts = measure_blowups(rep, "quick")
+        print(json.dumps(verdicts.get(r["what"])))
+        measure({}, rep, "quick") if False else None
+        v = verdicts.get(r["what"])
+        if isinstance(v, str):
+            return 1
+        return 1 if (v["rss_bytes_per_declared_item"] > 50 or (v["exponent_of_time_in_count"] or 0) > 1.5 or v["cpu_last_s"] > 1.0) else 0
+    print(json.dumps(r)[:1500])
+    return 2
